@@ -776,3 +776,64 @@ Proof.
   - injection E as <-. tauto.
   - apply IH; tauto.
 Qed.
+
+(* ====================================================================== *)
+(* 8. The goal window, without the Check-side rounding function            *)
+(* ====================================================================== *)
+(* round53 (round-to-nearest-even of a positive rational to 53 significant bits of its
+   numerator) moves its argument by at most 2^-52 relative; so every admissible goal is the
+   floor of a number within relative eps_goal = 2^-50 of total*q. *)
+Lemma Qabs_eq0 a b : a == b -> Qabs (a - b) == 0.
+Proof. intro E. setoid_replace (a - b) with 0 by lra. reflexivity. Qed.
+
+Lemma round53_err q : Qabs (round53 q - q) <= eps_goal * Qabs q.
+Proof.
+  assert (NN : 0 <= eps_goal * Qabs q).
+  { apply Qmult_le_0_compat; [unfold eps_goal; discriminate|apply Qabs_nonneg]. }
+  unfold round53. cbv zeta. set (r := Qred q). assert (Er : r == q) by apply Qred_correct.
+  destruct (Qnum r <=? 0)%Z eqn:E1; [rewrite (Qabs_eq0 _ _ Er); exact NN|]. apply Z.leb_gt in E1.
+  destruct (Z.log2 (Qnum r) + 1 <=? 53)%Z eqn:E2; [rewrite (Qabs_eq0 _ _ Er); exact NN|]. apply Z.leb_gt in E2.
+  set (n := Qnum r) in *. set (d := Qden r).
+  set (sh := (Z.log2 n + 1 - 53)%Z). assert (Hsh : (0 < sh)%Z) by (unfold sh; lia).
+  set (P := (2 ^ sh)%Z). assert (HP : (0 < P)%Z) by (apply Z.pow_pos_nonneg; lia).
+  set (m := Z.shiftr n sh).
+  assert (Em : m = (n / P)%Z) by (unfold m, P; apply Z.shiftr_div_pow2; lia).
+  assert (Esl : forall k, Z.shiftl k sh = (k * P)%Z) by (intro k; unfold P; apply Z.shiftl_mul_pow2; lia).
+  pose proof (Z.div_mod n P ltac:(lia)) as DM. pose proof (Z.mod_pos_bound n P HP) as MB.
+  rewrite <- Em in DM.
+  assert (Hbig : (P * 2 ^ 52 <= n)%Z).
+  { pose proof (Z.log2_spec n E1) as [L _]. replace (Z.log2 n) with (sh + 52)%Z in L by (unfold sh; lia).
+    rewrite Z.pow_add_r in L by lia. exact L. }
+  match goal with |- Qabs ((Z.shiftl ?mm sh # _) - q) <= _ => set (m' := mm) end.
+  assert (Hm' : (Z.abs (m' * P - n) <= P)%Z).
+  { unfold m'. match goal with |- context [if ?b then _ else _] => destruct b end; nia. }
+  rewrite Esl.
+  setoid_replace q with (n # d) by (rewrite <- Er; unfold n, d; destruct r; reflexivity).
+  assert (Ediff : (m' * P # d) - (n # d) == (m' * P - n # d)).
+  { unfold Qminus, Qplus, Qopp, Qeq. cbn. nia. }
+  rewrite Ediff. unfold Qabs at 1.
+  assert (Habs : Qabs (n # d) == n # d) by (apply Qabs_pos; unfold Qle; cbn; lia).
+  rewrite Habs. unfold eps_goal, Qle, Qmult. cbn [Qnum Qden].
+  set (A := Z.abs (m' * P - n)) in *.
+  assert (E50 : Z.pos (2 ^ 50) = (2 ^ 50)%Z) by reflexivity.
+  rewrite Pos2Z.inj_mul, E50.
+  assert (H52 : (2 ^ 52 = 4 * 2 ^ 50)%Z) by reflexivity.
+  nia.
+Qed.
+
+Lemma goal_window_close total q g : goal_window total q g ->
+  exists t', Qabs (t' - QofN total * q) <= eps_goal * Qabs (QofN total * q) /\ g = Qfloor t'.
+Proof.
+  unfold goal_window. cbv zeta. set (tq := QofN total * q).
+  assert (NN : 0 <= eps_goal * Qabs tq).
+  { apply Qmult_le_0_compat; [unfold eps_goal; discriminate|apply Qabs_nonneg]. }
+  assert (Ee : Qabs (eps_goal * tq) == eps_goal * Qabs tq).
+  { rewrite Qabs_Qmult. rewrite (Qabs_pos eps_goal) by (unfold eps_goal; discriminate). reflexivity. }
+  intros [->|[->|[->| ->]]].
+  - exists tq. split; [rewrite (Qabs_eq0 tq tq) by reflexivity; exact NN|reflexivity].
+  - exists (round53 tq). split; [apply round53_err|reflexivity].
+  - exists (tq * (1 - eps_goal)). split; [|reflexivity].
+    setoid_replace (tq * (1 - eps_goal) - tq) with (- (eps_goal * tq)) by ring. rewrite Qabs_opp, Ee. apply Qle_refl.
+  - exists (tq * (1 + eps_goal)). split; [|reflexivity].
+    setoid_replace (tq * (1 + eps_goal) - tq) with (eps_goal * tq) by ring. rewrite Ee. apply Qle_refl.
+Qed.
